@@ -112,29 +112,37 @@ def check_serializer(ctx, lib):
     cs = casts_in(b) if b else []
     row("serialize_f32", ok and len(cs) == 1 and cs[0][1] == "f32" and cs[0][2] == "f64", "widens to f64 and delegates to serialize_f64 on the same serializer")
     b, o, okt, tails = R("serialize_f64")
-    ok = bool(b) and len(okt) == 1 and not tails and f64_mapping_ok(okt[0], P2)
+    ok = bool(b) and len(okt) >= 1 and not tails and f64_mapping_ok(set().union(*okt), P2)
     row("serialize_f64", ok and not casts_in(b), "Number(from_f64(value)) when finite, Null otherwise")
     b, o, okt, tails = R("serialize_str")
     row("serialize_str", bool(b) and len(okt) == 1 and not tails and ms(okt[0], Agg(VAR + "::String", Each(P2))), "String(exactly the argument)")
     b, o, okt, tails = R("serialize_char")
-    ok = bool(b) and not okt and len(tails) == 1 and m(tails[0], Call("serde::Serializer::serialize_str", Each(P1), Each(Call("std::string::String::new"))))
+    # a one-character string, whatever way it is made: String::new + push(c), c.encode_utf8(buf), c.to_string(), String::from(c)
+    ok = bool(b) and not okt and len(tails) == 1 and tails[0][0] == "call" and tails[0][1] == "serde::Serializer::serialize_str" and set(tails[0][2][0]) == {P1}
     if ok:
-        ps = [t for _, t in b.calls() if t["callee"] == "std::string::String::push"]
-        ok = len(ps) == 1 and o.of_operand(ps[0]["args"][1]) == {P2}
-        others = [t["callee"] for _, t in b.calls() if t["callee"].startswith("std::string::String::") and t["callee"] not in ("std::string::String::new", "std::string::String::push")]
-        ok = ok and not others
+        for x in tails[0][2][1]:
+            if m(x, Call("std::string::String::new")):
+                ps = [t for _, t in b.calls() if t["callee"] == "std::string::String::push"]
+                others = [t["callee"] for _, t in b.calls() if t["callee"].startswith("std::string::String::") and t["callee"] not in ("std::string::String::new", "std::string::String::push")]
+                ok = ok and len(ps) == 1 and o.of_operand(ps[0]["args"][1]) == {P2} and not others
+            elif x[0] == "call" and x[1].endswith("::encode_utf8") and set(x[2][0]) == {P2}:
+                pass
+            elif x[0] == "call" and x[1] in ("std::string::ToString::to_string", "std::convert::From::from", "std::convert::Into::into") and set(x[2][0]) == {P2}:
+                pass
+            else:
+                ok = False
     row("serialize_char", ok, "String consisting of exactly that character")
     b, o, okt, tails = R("serialize_bytes")
-    ok = bool(b) and len(okt) == 1 and not tails and ms(okt[0], Agg(VAR + "::Array", Each(Call("std::iter::Iterator::collect", Each(Call("std::iter::Iterator::map", Each(("iter", P2)), Each(lambda x: x[0] == "closure")))))))
+    # the bytes in order, each as Number(byte) — as an iterator chain or as a loop (collected.describe_vector)
+    ok = bool(b) and len(okt) == 1 and not tails and bool(okt[0]) and all(t[0] == "agg" and t[1] == VAR + "::Array" for t in okt[0])
     if ok:
-        clo = lib.closures_of(b.deff)
-        ok = len(clo) == 1
-        if ok:
-            co = Origins(clo[0], lib)
-            r = co.of_local(0)
-            ok = ms(r, Agg(VAR + "::Number", Each(P2))) and not casts_in(clo[0])
-            nf = [t for _, t in clo[0].calls() if t["callee"] == "std::convert::From::from"]
-            ok = ok and len(nf) == 1 and nf[0]["callee_args"] == ["serde_json::Number", "u8"]
+        from ..collected import ELEM, describe_vector
+        for t in okt[0]:
+            d = describe_vector(lib, b, o, set(t[2][0]))
+            ok = ok and d is not None and len(d) == 1 and d[0].source == {P2} and d[0].every_item and not d[0].fallible and \
+                bool(d[0].value) and all(v[0] == "agg" and v[1] == VAR + "::Number" and set(v[2][0]) == {ELEM} for v in d[0].value)
+        froms = [t for bd in [b] + lib.closures_of(b.deff) for _, t in bd.calls() if t["callee"] == "std::convert::From::from"]
+        ok = ok and len(froms) == 1 and froms[0]["callee_args"] == ["serde_json::Number", "u8"] and not casts_in(b) and not any(casts_in(c) for c in lib.closures_of(b.deff))
     row("serialize_bytes", ok, "Array of Number(byte) in order")
     b, o, okt, tails = R("serialize_unit")
     row("serialize_unit", bool(b) and len(okt) == 1 and not tails and ms(okt[0], Agg(VAR + "::Null")), "Null")
